@@ -85,6 +85,11 @@ CLASSES = {
         "kind": "obj", "qualname": "aldy.solutions.MajorSolution",
         "fields": {"score": "float", "solution": "Dict[str, int]", "cn_solution": "CNSolution", "added": "List[Mutation]"},
     },
+    "MinorSolution": {
+        "kind": "obj", "qualname": "aldy.solutions.MinorSolution",
+        "fields": {"score": "float", "solution": "List[SolvedAllele]", "major_solution": "MajorSolution", "profile": "Optional[Profile]",
+                   "diplotype": "Opaque[Diplotype]"},
+    },
     "CBC": {
         "kind": "obj", "qualname": "aldy.lpinterface.CBC",
         "fields": {"INF": "float", "model": "Opaque[ORSolver]", "names": "DefaultDict[str, int, 'int']",
